@@ -75,3 +75,81 @@ Definition upload_done_bytes (bs : bytes) : bool :=
     end
   else true
   end end end end end end.
+
+(* ---- transfer connection, FOLDER upload into a fresh target (hotline/file_transfer.go, UploadFolderHandler):
+        preamble(16), then for each of the announced items an item header - data size(2), is-folder(2), path item
+        count(2), path (data size - 4 bytes, 16-bit arithmetic) - and, for a file, the size word(4) and a flattened
+        file as receiveFile reads it: header(24), info fork header(16), info fork, data fork header(16), data fork
+        (io.CopyN), and with a fork count of 3 a resource fork header(16) and the resource fork.  The result is the
+        list of items with the bytes written to each file; None when the stream ends early. ---- *)
+Record fitem := mk_fitem { fi_path : bytes; fi_isdir : bool; fi_data : bytes }.
+
+Definition file_body_chunks (c : list bytes) : option (bytes * list bytes) :=
+  match read_full 24 c with None => None | Some (h, c2) =>
+  match read_full 16 c2 with None => None | Some (ih, c3) =>
+  match read_full (N.to_nat (size_of_forkhdr ih)) c3 with None => None | Some (_, c4) =>
+  match read_full 16 c4 with None => None | Some (dh, c5) =>
+  let '(d, c6, ok) := copy_n (N.to_nat (size_of_forkhdr dh)) c5 in
+  if ok then
+    if three_forks h then
+      match read_full 16 c6 with None => None | Some (rh, c7) =>
+      let '(_, c8, ok2) := copy_n (N.to_nat (size_of_forkhdr rh)) c7 in
+      if ok2 then Some (d, c8) else None
+      end
+    else Some (d, c6)
+  else None
+  end end end end.
+Definition file_body_bytes (b : bytes) : option (bytes * bytes) :=
+  match take_exact 24 b with None => None | Some (h, b2) =>
+  match take_exact 16 b2 with None => None | Some (ih, b3) =>
+  match take_exact (size_of_forkhdr ih) b3 with None => None | Some (_, b4) =>
+  match take_exact 16 b4 with None => None | Some (dh, b5) =>
+  match take_exact (size_of_forkhdr dh) b5 with None => None | Some (d, b6) =>
+  if three_forks h then
+    match take_exact 16 b6 with None => None | Some (rh, b7) =>
+    match take_exact (size_of_forkhdr rh) b7 with None => None | Some (_, b8) => Some (d, b8) end
+    end
+  else Some (d, b6)
+  end end end end end.
+
+(* Go: make([]byte, binary.BigEndian.Uint16(fu.DataSize[:])-4) in uint16 arithmetic *)
+Definition path_len (ds : bytes) : N := (dbe ds + 65536 - 4) mod 65536.
+
+Fixpoint folder_items_chunks (n : nat) (c : list bytes) : option (list fitem) :=
+  match n with
+  | O => Some []
+  | S n' =>
+      match read_full 2 c with None => None | Some (ds, c1) =>
+      match read_full 2 c1 with None => None | Some (isf, c2) =>
+      match read_full 2 c2 with None => None | Some (_, c3) =>
+      match read_full (N.to_nat (path_len ds)) c3 with None => None | Some (p, c4) =>
+      if bytes_eqb isf [0; 1] then
+        match folder_items_chunks n' c4 with Some r => Some (mk_fitem p true [] :: r) | None => None end
+      else
+        match read_full 4 c4 with None => None | Some (_, c5) =>
+        match file_body_chunks c5 with None => None | Some (d, c6) =>
+        match folder_items_chunks n' c6 with Some r => Some (mk_fitem p false d :: r) | None => None end
+        end end
+      end end end end
+  end.
+Fixpoint folder_items_bytes (n : nat) (b : bytes) : option (list fitem) :=
+  match n with
+  | O => Some []
+  | S n' =>
+      match take_exact 2 b with None => None | Some (ds, b1) =>
+      match take_exact 2 b1 with None => None | Some (isf, b2) =>
+      match take_exact 2 b2 with None => None | Some (_, b3) =>
+      match take_exact (path_len ds) b3 with None => None | Some (p, b4) =>
+      if bytes_eqb isf [0; 1] then
+        match folder_items_bytes n' b4 with Some r => Some (mk_fitem p true [] :: r) | None => None end
+      else
+        match take_exact 4 b4 with None => None | Some (_, b5) =>
+        match file_body_bytes b5 with None => None | Some (d, b6) =>
+        match folder_items_bytes n' b6 with Some r => Some (mk_fitem p false d :: r) | None => None end
+        end end
+      end end end end
+  end.
+Definition folder_upload_chunks (n : nat) (chunks : list bytes) : option (list fitem) :=
+  match read_full 16 chunks with None => None | Some (_, c1) => folder_items_chunks n c1 end.
+Definition folder_upload_bytes (n : nat) (b : bytes) : option (list fitem) :=
+  match take_exact 16 b with None => None | Some (_, b1) => folder_items_bytes n b1 end.
